@@ -11,6 +11,9 @@ package main
 type coroMsg struct {
 	finished bool
 	panicVal interface{}
+	kind     int
+	ready    func() bool
+	what     string
 }
 
 type coro struct {
@@ -106,6 +109,9 @@ func (e *Exec) schedule() bool {
 // true (caller re-checks readiness). In the main thread: let the others run;
 // true if any of them progressed.
 func (e *Exec) blocked() bool {
+	if e.exploring() {
+		return false // explore mode uses blockUntil/threadYield
+	}
 	if e.curCoro != nil {
 		e.park()
 		return true
